@@ -276,8 +276,9 @@ Definition genome_trace (fixed_order ahead keepall : bool) (genome extra : list 
   (if ahead then iter_chrom_ahead bname zlist_eqb ids [] else iter_chrom bname zlist_eqb ids [])
     order incl ign (grouped bname zlist_eqb chunks).
 
-(* Which variant is the code at /repo HEAD: both switches false.  fix-1 = fixed_order, fix-2 = ahead. *)
-Definition FIXED_ORDER := false.
+(* Which variant is the code at /repo HEAD: all three switches false.  FIXED_ORDER <-> notes/C12.fix-1.diff,
+   AHEAD <-> fix-2, SYNC_AHEAD <-> fix-3: flip a switch to true when the corresponding diff is committed to /repo. *)
+Definition FIXED_ORDER := true.
 Definition AHEAD := true.
 Definition genome_trace_head := genome_trace FIXED_ORDER AHEAD.
 Definition SYNC_AHEAD := false.            (* fix-3 *)
